@@ -30,6 +30,37 @@ var commonAssumptions = []string{
 func allChecks() []CheckSpec {
 	return []CheckSpec{
 		{
+			ID: "C11",
+			Harnesses: []HarnessSpec{
+				{Fn: "verifC11Notifier", Lemma: "schedule exploration over the REAL handlerNotifier (Enqueue*, the drainer goroutines it spawns, Close): two concurrent producers (A: two events, B: one) on any of the three streams with a slow handler that yields inside: the handler never runs concurrently with itself, every event is delivered exactly once, A's events in their order, GracefulClose returns only when no handler is running, and nothing is invoked after it returned",
+					Bounds: "3 events, 2 producers + drainer goroutines + harness, all schedules with at most 2 (thorough 3) preemptive context switches at synchronisation-point granularity", MustReach: []string{"done"},
+					Cfg: func(c *HarnessCfg, tier int) { c.GoPolicy = "explore"; c.ContextBound = 2 + tier; c.MaxPaths = 4000000; c.MaxWallS = 1200 }},
+				{Fn: "verifC11GatherVsRestart", Lemma: "GatherCandidates racing with Restart on the real task loop, the real gatherCandidates goroutine and the real notifier: at most one nil candidate per cycle, exactly one when the cycle completed, none from a refused or cancelled cycle, final gathering state New or Complete",
+					Bounds: "one gather call and one Restart, fake net without interfaces, context bound 1 (thorough 2), the first 5 (thorough 7) non-preemptive switch points explored over all enabled threads, later ones least-recently-run", MustReach: []string{"completed", "cancelled-by-restart", "done"},
+					Cfg: func(c *HarnessCfg, tier int) { c.GoPolicy = "explore"; c.ContextBound = 1 + tier; c.FreeChoiceBound = 5 + 2*tier; c.MaxPaths = 8000000; c.MaxWallS = 1500 }},
+			},
+			Assumptions: append([]string{
+				"threads switch only at synchronisation operations (sound for data-race-free code); schedule-dependent counterexamples are replayed by re-executing the recorded schedule on the SSA of the real code",
+			}, commonAssumptions...),
+			Outside: "handlers that re-enter the API or close the agent, event bursts longer than 3, handlers blocking forever, context bounds above 3",
+		},
+		{
+			ID: "C10",
+			Harnesses: []HarnessSpec{
+				{Fn: "verifC10Loop", Lemma: "schedule exploration over the REAL internal/taskloop (New/runLoop/Run/Close/Err, no stub): two concurrent submitters (one with a cancellable context), an optional canceller and an optional closer, the loop goroutine: tasks never overlap, a submission returns nil exactly when its task ran once to completion before the return and an error exactly when it never ran, no task starts after Close returned, the close callback runs once and before Close returns, submissions after Close fail without running",
+					Bounds: "quick: 1 submitter (cancellable context) + optional canceller + optional closer + loop goroutine + harness; thorough: 2 submitters; every schedule with at most 2 preemptive context switches at synchronisation-point granularity (channel ops, select, mutex, Once, WaitGroup, atomics), free switches when a thread blocks", MustReach: []string{"submitted", "refused", "closed", "done"},
+					Cfg: func(c *HarnessCfg, tier int) { c.GoPolicy = "explore"; c.ContextBound = 2; c.MaxPaths = 4000000; c.MaxWallS = 1200 }},
+				{Fn: "verifC10CloseTwice", Lemma: "two concurrent Close calls and a submission: both Close calls return after the single callback; the submission succeeds iff its task ran",
+					Bounds: "5 threads, context bound 1 (quick) / 2 (thorough)", MustReach: []string{"done"},
+					Cfg: func(c *HarnessCfg, tier int) { c.GoPolicy = "explore"; c.ContextBound = 1 + tier; c.MaxPaths = 4000000 }},
+			},
+			Assumptions: append([]string{
+				"threads switch only at synchronisation operations (sound for data-race-free code; data races themselves are outside); channels have rendezvous/buffer semantics, mutexes block, sync.Once.Do returns after f; context package executed as real code",
+				"schedule-dependent counterexamples are replayed by re-executing the recorded schedule on the SSA of the real code (a native run cannot force a schedule); the harness is additionally run natively under the Go scheduler as a sanity check",
+			}, commonAssumptions...),
+			Outside: "the second half of the property (every public Agent/Conn method callable concurrently without data races): race freedom needs a memory-access-level race detector, not a schedule explorer at synchronisation granularity; more than 5 threads; context bounds above 3",
+		},
+		{
 			ID: "C15",
 			Harnesses: []HarnessSpec{
 				{Fn: "verifC15HandleConn", Lemma: "one accepted TCP connection through the real handleConn/readStreamingPacket/stun.Message.Decode/getConn/createConn/AddConn/startReading: closed iff the first frame is missing, truncated, oversized (>512), undecodable, not Binding or lacks USERNAME; otherwise attached to exactly the packet conn of (ufrag before ':', family of the peer, local IP) — created with the expiry timer armed when the ufrag is unknown, the agent's own when it had asked for it; the first message and later packets are delivered there in order with the peer's address; a reply written to that address goes back over the same connection with RFC 4571 framing; provisional conns expire; Close closes listener and connections and hands out nothing afterwards",
@@ -100,6 +131,9 @@ func allChecks() []CheckSpec {
 				{Fn: "verifC13Refcount", Lemma: "2..3 handles for one ufrag share one underlying connection that is closed exactly when the last handle closes (repeated Close is idempotent); a closed handle's reads and writes fail with ErrClosedPipe while siblings keep reading and writing",
 					Bounds: "2..3 handles, 4 (quick) / 6 (thorough) operations from {Close, WriteTo, ReadFrom with a packet queued} on any handle", MustReach: []string{"write-on-closed-handle", "sibling-write", "read-on-closed-handle", "sibling-read", "done"},
 					Cfg: func(c *HarnessCfg, tier int) { c.GoPolicy = "queue" }},
+				{Fn: "verifC13AbortInterleaved", Lemma: "schedule exploration over the real writeToContext/writeTo/startWriteContext/finishWrite/abortWrite/clearWriteDeadlineAfterAbort and the lock-free state word (every atomic operation is a scheduling point): a context-bound write blocked in the socket, a concurrent plain write by another user, and the cancellation of the first context: under every schedule within the bound everybody returns (no deadlock/livelock), the state word returns to 0, the last deadline set on the shared socket is 'none', and a later write succeeds",
+					Bounds: "threads: harness, 2 writers, canceller, the internal abort goroutine, connWorker; at most 2 preemptive context switches (thorough 3) at synchronisation-point granularity incl. every atomic load/CAS/store of the state word", MustReach: []string{"deadline-was-armed", "done"},
+					Cfg: func(c *HarnessCfg, tier int) { c.GoPolicy = "explore"; c.ContextBound = 2 + tier; c.MaxPaths = 4000000; c.MaxWallS = 1500 }},
 				{Fn: "verifC13AbortProtocol", Lemma: "write-abort protocol at method granularity on the real startWriteContext/finishWrite/abortWrite: abort without a writer in flight touches neither the state word nor the socket; the last finishing writer clears an armed deadline and the word returns to 0; a failed arming clears the flags; the in-flight count is exact and never underflows; a write starting while an abort is pending does not enter; after all writers returned later writes enter and the last deadline set is 'none'",
 					Bounds: "4 (quick) / 6 (thorough) calls from {start write, finish write, abort}, SetWriteDeadline succeeding or failing", MustReach: []string{"start-while-blocked", "last-writer-after-abort", "abort-noop", "arming-failed", "armed", "done"},
 					Cfg: func(c *HarnessCfg, tier int) { c.GoPolicy = "queue" }},
